@@ -3,7 +3,7 @@
 (* graph on the given names (liveness: Termination; safety: ReportsCycles, DepthBounded), and        *)
 (* emission of every terminal state (graph + the lookups the model predicts) for replay on the real  *)
 (* resolveType.                                                                                      *)
-EXTENDS TypeResolve, Json
+EXTENDS TypeResolveProps, Json
 
 Emit ==
   done => PrintT(ToJson([marker |-> "CASE", prop |-> "C08", lang |-> "tsx", tscase |-> "graph",
